@@ -36,12 +36,12 @@ EXTENDS Naturals, Sequences, FiniteSets
 (***************************************************************************)
 PlainKinds == {"apply_ok", "apply_bad", "apply_ext_data", "apply_ext_exc", "apply_ext_nested",
                "fetch_ok", "fetch_bad", "fetch_meta", "echo", "unknown", "fail"}
-HostileKinds == {"apply_hostile", "fetch_hostile", "apply_ext_hostile"}
+HostileKinds == {"apply_hostile", "apply_wire", "fetch_hostile", "apply_ext_hostile"}
 Kinds == PlainKinds \cup HostileKinds
 
 Name(k) ==
   CASE k \in {"apply_ok", "apply_bad", "apply_ext_data", "apply_ext_exc", "apply_ext_nested",
-              "apply_hostile", "apply_ext_hostile"} -> "apply_user_actions"
+              "apply_hostile", "apply_wire", "apply_ext_hostile"} -> "apply_user_actions"
     [] k \in {"fetch_ok", "fetch_bad", "fetch_hostile"} -> "fetch_table"
     [] k = "fetch_meta" -> "fetch_meta_tables"
     [] k = "echo" -> "test_echo"
@@ -50,6 +50,9 @@ Name(k) ==
 
 \* the arguments are valid: the function itself has no reason to raise
 ArgsValid(k) == k \notin {"apply_bad", "fetch_bad", "unknown", "fail"}
+\* "apply_wire": a bundle that puts arbitrary data of Node's into a typed data cell.  The property does not say
+\* which data a cell must accept: the engine may reject the bundle (and then reverts it) or apply it.
+MayReject(k) == k = "apply_wire"
 \* what Node answers to the nested CALL made while serving k ("none": there is no nested call)
 ExtAnswer(k) ==
   CASE k \in {"apply_ext_data", "apply_ext_nested", "apply_ext_hostile"} -> "DATA"
@@ -58,11 +61,11 @@ ExtAnswer(k) ==
 \* the call changes the document when it runs to completion
 Mutating(k) == Name(k) = "apply_user_actions" /\ ArgsValid(k) /\ ExtAnswer(k) # "EXC"
 \* the reply (or the nested CALL) carries cell values
-ReplyHostile(k) == k \in {"apply_hostile", "fetch_hostile"}
+ReplyHostile(k) == k \in {"apply_hostile", "apply_wire", "fetch_hostile"}
 CallHostile(k) == k = "apply_ext_hostile"
 \* the statement: "every apply_user_actions and fetch_table reply can be delivered"
 GuaranteedNames == {"apply_user_actions", "fetch_table", "fetch_meta_tables"}
-Guaranteed(k) == Name(k) \in GuaranteedNames /\ ArgsValid(k) /\ ExtAnswer(k) # "EXC"
+Guaranteed(k) == Name(k) \in GuaranteedNames /\ ArgsValid(k) /\ ~MayReject(k) /\ ExtAnswer(k) # "EXC"
 
 (***************************************************************************)
 (* Part 1: the relation.                                                   *)
@@ -173,11 +176,12 @@ PyExec ==
             \/ /\ CallHostile(f.kind) /\ ~MarshalTotal         \* marshal.dumps of the CALL raises
                /\ py' = SetTop(py, [f EXCEPT !.st = "raised"])
                /\ UNCHANGED <<s2c, doc>>
-       ELSE /\ IF ArgsValid(f.kind)
-               THEN /\ py' = SetTop(py, [f EXCEPT !.st = "ran"])
-                    /\ doc' = IF Mutating(f.kind) THEN doc + 1 ELSE doc
-               ELSE /\ py' = SetTop(py, [f EXCEPT !.st = "raised"])     \* the engine reverts a failed bundle (C04)
-                    /\ UNCHANGED doc
+       ELSE /\ \/ /\ ArgsValid(f.kind)
+                  /\ py' = SetTop(py, [f EXCEPT !.st = "ran"])
+                  /\ doc' = IF Mutating(f.kind) THEN doc + 1 ELSE doc
+               \/ /\ ~ArgsValid(f.kind) \/ MayReject(f.kind)
+                  /\ py' = SetTop(py, [f EXCEPT !.st = "raised"])       \* the engine reverts a failed bundle (C04)
+                  /\ UNCHANGED doc
             /\ UNCHANGED s2c
   /\ UNCHANGED <<script, pc, nd, c2s, node, log, nid, desync>>
 
